@@ -22,7 +22,8 @@ MsgOptions ==
   \cup [role : {"user"}, len : {1, 3}, imgs : {1, 2}, ph : BOOLEAN]
 
 ImgCost(kind) == CASE kind = "vision" -> 768 [] kind = "mllama" -> 1 [] OTHER -> 0
-Cost(m, style) == m.len + (IF style = "messages" THEN 1 ELSE 0) + (IF m.ph THEN 1 ELSE 0)
+\* "sysonce": a template that prints .System once and skips system entries of .Messages (no role word for them)
+Cost(m, style) == m.len + (IF style = "messages" \/ (style = "sysonce" /\ m.role # "system") THEN 1 ELSE 0) + (IF m.ph THEN 1 ELSE 0)
 
 RECURSIVE SumOver(_, _, _)
 SumOver(S, f(_), acc) == IF S = {} THEN acc
